@@ -551,7 +551,7 @@ def run_check(prop, tier, seed, replay=None):
             broken.append({'kind': 'correspondence', 'what': f'cases shard {k} did not evaluate: {err[-600:]}'})
         mismatches = [term_idx[j] for j in mism]
     ctx = {'tier': tier, 'seed': seed, 'rng': rng, 'build_ok': build_ok, 'notes': notes,
-           'hist': hist, 'extra_evals': 0, 'extra_nontrivial': 0, 'exhaustive': []}
+           'hist': hist, 'extra_evals': 0, 'extra_nontrivial': 0, 'exhaustive': [], 'broken': broken}
     if not replay:
         failures += list(prop.extra_checks(ctx))
 
